@@ -422,6 +422,7 @@ func c09Field(c *core.Ctx, k *core.Case) {
 			return
 		}
 		isSlice := f.VType == "[]uint8"
+		var held, heldCopy []byte
 		for p := 0; p < nPri; p++ {
 			prior := c09Prior(r, p, n, ev)
 			fw := sp.Width / 8
@@ -433,6 +434,18 @@ func c09Field(c *core.Ctx, k *core.Case) {
 			ev.get(&after)
 			gb := valueBytes(gotV)
 			evals++
+			if isSlice {
+				// the slice an earlier call of this getter returned is its caller's: a later
+				// call (on another state of the element) leaves it alone
+				if held != nil && !bytes.Equal(held, heldCopy) {
+					fail("getter-result-changed-later", fmt.Sprintf("the slice Get%s() returned earlier read %x; after a later Get%s() call it reads %x", field, heldCopy, field, held))
+					held = nil
+				}
+				if held == nil && gotV.Len() > 0 {
+					held = gotV.Bytes()
+					heldCopy = cloneB(held)
+				}
+			}
 			if !bytes.Equal(gb, prior.data[sp.Octet:sp.Octet+fw]) {
 				fail("getter-wrong-bits", fmt.Sprintf("state {%s}: Get%s() = %x, documented octets %x", prior, field, gb, prior.data[sp.Octet:sp.Octet+fw]))
 			}
